@@ -266,11 +266,19 @@ func (m *mappers) ToCharGroup(r comb.Result) (comb.Result, bool) {
 
 	items := r2.Val.(comb.List)
 
+	// Characters beyond ASCII (e.g. \x0100) do not fit in the map: they are kept aside.
+	// Negation ranges over ASCII only, so they matter only when the group is not negated.
+	var others []rune
+
 	charMap := make([]bool, len(parser.RuneClasses["ASCII"].Runes()))
 	for _, r := range items {
 		if chars, ok := r.Bag[bagKeyChars].([]rune); ok {
 			for _, c := range chars {
-				charMap[c] = true
+				if 0 <= c && int(c) < len(charMap) {
+					charMap[c] = true
+				} else {
+					others = append(others, c)
+				}
 			}
 		}
 	}
@@ -279,6 +287,12 @@ func (m *mappers) ToCharGroup(r comb.Result) (comb.Result, bool) {
 	for i, marked := range charMap {
 		if (!neg && marked) || (neg && !marked) {
 			nfa.Add(0, auto.Symbol(rune(i)), []auto.State{1})
+		}
+	}
+
+	if !neg {
+		for _, c := range others {
+			nfa.Add(0, auto.Symbol(c), []auto.State{1})
 		}
 	}
 
